@@ -261,11 +261,38 @@ def main(argv=None):
                     vr = run_pyfunc(REAL_PY, ob['validate'], {'args': r['args'], 'kwargs': r['kwargs'], 'target': ob['fn'],
                                                              'mode': 'witness', 'obligation': name}, tier, seed)
                     rec['validated_against_impl'] = vr
-                    if vr.get('error') or not vr.get('ok', False):
+                    if vr.get('error'):
                         harness_error = True
                         rec['outcome'] = 'stub_mismatch'
-                        lines.append(f'HARNESS-ERROR property={prop} witness of {name} disagrees with the real code: '
+                        lines.append(f'HARNESS-ERROR property={prop} witness of {name}: replay crashed: '
                                      f'{json.dumps(vr)[:400]}')
+                    elif not vr.get('ok', False):
+                        # the symbolic run says this input is fine; the unmodified package, judged by the independent
+                        # file-level oracle, says it is not: that is an observed violation of the property on the real
+                        # code (found at a solver-chosen witness), whatever module causes it
+                        r2 = dict(r)
+                        rr = dict(vr)
+                        rr['reproduced'] = True
+                        argmap = dict(rr.get('argmap') or {})
+                        argmap.setdefault('args', r['args'])
+                        kf = match_finding(findings, prop, name, argmap)
+                        if kf is not None:
+                            lines.append(f'KNOWN-FINDING: property={prop} {kf["id"]} {kf["what"]} (witness {r["args"]})')
+                            rec['known_finding'] = kf['id']
+                            rec['outcome'] = 'known_finding'
+                        else:
+                            h = hashlib.sha1(json.dumps([prop, name, r['args']], default=str).encode()).hexdigest()[:10]
+                            path = os.path.join(REPLAYS, f'{prop}-{name}-{h}.json')
+                            with open(path, 'w') as f:
+                                json.dump({'property': prop, 'obligation': name, 'replay': ob['validate'],
+                                           'payload': {'args': r['args'], 'kwargs': r['kwargs'], 'target': ob['fn'],
+                                                       'mode': 'violation', 'obligation': name}, 'observed': rr}, f,
+                                          indent=1, default=str)
+                            lines.append(f'VIOLATION property={prop} replay={path}')
+                            lines.append(f'  witness of {name} input={r["args"]} on the unmodified package: '
+                                         f'{str(vr.get("detail"))[:300]}')
+                            rec['outcome'] = 'violation'
+                            violations += 1
             elif r['verdict'] == 'counterexample':
                 # the twin raised: the path to the assertion is blocked by an exception -> report as candidate
                 rec['outcome'], v, he = handle_counterexample(prop, ob, name, r, findings, tier, seed, lines, rec)
